@@ -176,6 +176,38 @@ def case_nokind(case):
     return out
 
 
+LEGACY_NAMES = {"Short": "GearShort", "Group": "GearGroup", "Broadcast": "GearBroadcast",
+                "BroadcastUnaddressed": "GearBroadcastUnaddressed"}      # dali/address.py: "alias provided for legacy purposes"
+
+
+def case_alias(case):
+    """case: {"op": "alias", "name": legacy name, "idx": index into gear_objects, "v": 16-bit frame value}: an address
+    object made through a legacy name is the control-gear address of that kind: same bits written, same read-back,
+    equal to the object made through the Gear* name."""
+    address, frame, exc = _mods()
+    kind, num, field, ref_obj = gear_objects(address)[case["idx"]]
+    ctor = getattr(address, case["name"], None)
+    if ctor is None:
+        return []
+    where = "address.%s(%s) into 16-bit %#x" % (case["name"], "" if num is None else num, case["v"])
+    out = []
+    try:
+        o = ctor() if num is None else ctor(num)
+        f = frame.ForwardFrame(16, case["v"])
+        o.add_to_frame(f)
+        exp = (case["v"] & ~(0x7F << 9)) | (field << 9)
+        if f.as_integer != exp:
+            out.append(("C04:write-wrong-bits:legacy-name", "%s: got %#x, the %s it stands for gives %#x" % (where, f.as_integer, kind, exp)))
+        r = address.from_frame(f)
+        if describe(r) != (kind, num):
+            out.append(("C04:address-readback:legacy-name", "%s: read back %r, expected %r" % (where, describe(r), (kind, num))))
+        if not (o == ref_obj) or not (ref_obj == o) or (o != ref_obj):
+            out.append(("C04:equality:legacy-name", "%s: not equal to address.%s(%s)" % (where, kind, "" if num is None else num)))
+    except Exception as e:  # noqa
+        out.append(("C04:write-raised:%s:legacy-name" % type(e).__name__, "%s: %r" % (where, e)))
+    return out
+
+
 def nokind_classes(address):
     """Public address classes that can be constructed but are none of the concrete kinds the standard defines."""
     names = []
@@ -610,6 +642,8 @@ def run_case(case):
         return case_foreign(case)
     if op == "nokind":
         return case_nokind(case)
+    if op == "alias":
+        return case_alias(case)
     raise ValueError(op)
 
 
@@ -683,6 +717,19 @@ def _shard(arg):
                     for sig, msg in case_wrongsize(case):
                         res.violation(sig, case, msg)
         res.sample({"op": "wrongsize", "space": space, "idx": 3, "bits": 17, "v": 0x1FFFF})
+    elif kind == "alias":
+        objs = gear_objects(address)
+        for name, gkind in sorted(LEGACY_NAMES.items()):
+            for idx, (k, num, field, o) in enumerate(objs):
+                if k != gkind:
+                    continue
+                for v in (0x0000, 0xFFFF, 0xA55A, 0x01FF, 0xFE00 ^ (idx << 3)):
+                    case = {"op": "alias", "name": name, "idx": idx, "v": v & 0xFFFF}
+                    res.count()
+                    res.nontrivial()
+                    for sig, msg in case_alias(case):
+                        res.violation(sig, case, msg)
+            res.label("legacy-name:" + name, 1)
     elif kind == "nokind":
         for name in nokind_classes(address):
             for bits in range(1, 65):
@@ -745,6 +792,7 @@ def run(ctx):
         shards.append(("wrongsize", space))
     shards.append(("eq",))
     shards.append(("nokind",))
+    shards.append(("alias",))
     for ci in range(len(NUMBERED)):
         shards.append(("lifetime", ci, ctx.seed))
     ctx.pmap(_shard, shards)
